@@ -569,6 +569,7 @@ func runSettings(c SCase) *h.Result {
 			post := cloneVals(m)
 			post[op.Var] = op.Val.text(sp)
 			where := fmt.Sprintf("session %d op %d (setq %s %s)", s, jx, op.Var, op.Val.source())
+			h.Class("set:"+op.Var, 1)
 			seen := map[string]bool{}
 			for k, pt := range st.Points {
 				h.Class("crash@"+pt.Name, 1)
